@@ -13,7 +13,7 @@ use ckc_rs::cards::two::Two;
 use ckc_rs::HandError;
 use proptest::prelude::*;
 use serde_json::{json, Value};
-use std::cell::{Cell, RefCell};
+use std::cell::Cell;
 
 const ALL52: u64 = (1u64 << 52) - 1;
 
@@ -343,42 +343,31 @@ pub fn run(run: &mut Run) -> PResult {
     }
     // R: hands of every size
     {
-        let cnt = Cell::new(0u64);
-        let nt = Cell::new(0u64);
-        let frozen = Cell::new(false);
-        let distinct = RefCell::new(engine::Distinct::new());
-        let classes = RefCell::new(std::collections::BTreeMap::<String, u64>::new());
-        let cases = if thorough { 3_000_000 } else { 300_000 };
+        let st = engine::RStats::new();
+        let cases = if thorough { 16_000_000 } else { 2_000_000 };
         // forced repeats: a slot may copy an earlier slot
-        let strat = (2usize..=7).prop_flat_map(|n| (proptest::collection::vec(slot_strategy(), n), proptest::collection::vec(proptest::option::weighted(0.15, 0usize..7), n))).prop_map(|(mut ws, copies)| {
-            for i in 1..ws.len() {
-                if let Some(from) = copies[i] {
-                    ws[i] = ws[from % i];
+        let make = || {
+            (2usize..=7).prop_flat_map(|n| (proptest::collection::vec(slot_strategy(), n), proptest::collection::vec(proptest::option::weighted(0.15, 0usize..7), n))).prop_map(|(mut ws, copies)| {
+                for i in 1..ws.len() {
+                    if let Some(from) = copies[i] {
+                        ws[i] = ws[from % i];
+                    }
                 }
-            }
-            ws
-        });
-        let res = pt::run(run.seed, 0xC15, cases, &strat, |ws| {
-            if !frozen.get() {
-                cnt.set(cnt.get() + 1);
-                let mut s = ws.clone();
-                s.sort_unstable();
-                let dup = s.windows(2).any(|p| p[0] == p[1]);
-                let special = dup || ws.iter().any(|w| !card::is_card(*w));
-                if distinct.borrow_mut().insert(hash_words(&ws)) && special {
-                    nt.set(nt.get() + 1);
-                }
-                *classes.borrow_mut().entry(format!("hands of size {} {}", ws.len(), if special { "with duplicate/blank/non-card" } else { "of distinct cards" })).or_insert(0) += 1;
-            }
+                ws
+            })
+        };
+        let res = pt::run_sharded(run.seed, 0xC15, cases, &make, &|ws: Vec<u32>| {
+            let mut s = ws.clone();
+            s.sort_unstable();
+            let dup = s.windows(2).any(|p| p[0] == p[1]);
+            let special = dup || ws.iter().any(|w| !card::is_card(*w));
+            st.note(hash_words(&ws), special, Some(&format!("hands of size {} {}", ws.len(), if special { "with duplicate/blank/non-card" } else { "of distinct cards" })), || json!({"hand": card::render_hand(&ws), "set": format!("{:#x}", m_from_words(&ws))}));
             from_hand_clause(&ws).map_err(|e| {
-                frozen.set(true);
+                st.freeze();
                 e
             })
         });
-        run.generator("proptest hands of 2..7 slots -> set", "proptest", None, cnt.get(), nt.get(), "slots: cards, blank, one-bit corruptions, raw words; 15% of slots copy an earlier slot");
-        for (k, v) in classes.borrow().iter() {
-            run.class(k, *v);
-        }
+        st.flush(run, "proptest hands of 2..7 slots -> set", "proptest (8 shards)", None, "slots: cards, blank, one-bit corruptions, raw words; 15% of slots copy an earlier slot");
         if let Err(f) = res {
             let m = from_hand_clause(&f.value).err().unwrap_or_default();
             return run.violation("C15.from_hand", &card::render_hand(&f.value), hand_json(&f.value), &m);
@@ -386,18 +375,17 @@ pub fn run(run: &mut Run) -> PResult {
     }
     // R: texts
     {
-        let cnt = Cell::new(0u64);
-        let distinct = RefCell::new(engine::Distinct::new());
-        let cases = if thorough { 1_000_000 } else { 100_000 };
-        let strat = super::c12::hand_text_strategy(0..=9usize);
-        let res = pt::run(run.seed, 0xC15_7, cases, &strat, |s| {
-            if cnt.get() < cases as u64 {
-                cnt.set(cnt.get() + 1);
-                distinct.borrow_mut().insert(engine::hash_str(&s));
-            }
-            text_clause(&s)
+        let st = engine::RStats::new();
+        let cases = if thorough { 4_000_000 } else { 400_000 };
+        let make = || super::c12::hand_text_strategy(0..=9usize);
+        let res = pt::run_sharded(run.seed, 0xC15_7, cases, &make, &|s: String| {
+            st.note(engine::hash_str(&s), true, None, || json!({"text": s}));
+            text_clause(&s).map_err(|e| {
+                st.freeze();
+                e
+            })
         });
-        run.generator("proptest token texts -> set", "proptest", None, cnt.get(), distinct.borrow().len(), "0..=9 tokens (card spellings and junk) joined by the common separators");
+        st.flush(run, "proptest token texts -> set", "proptest (8 shards)", None, "0..=9 tokens (card spellings and junk) joined by the common separators");
         if let Err(f) = res {
             let m = text_clause(&f.value).err().unwrap_or_default();
             return run.violation("C15.from_text", &f.value, json!({"text": f.value}), &m);
@@ -426,47 +414,39 @@ pub fn run(run: &mut Run) -> PResult {
     }
     // R: sets peeled to exhaustion + histories
     {
-        let cnt = Cell::new(0u64);
-        let nt = Cell::new(0u64);
-        let frozen = Cell::new(false);
-        let distinct = RefCell::new(engine::Distinct::new());
-        let cases = if thorough { 1_000_000 } else { 100_000 };
-        let strat = (set_strategy(), proptest::collection::vec(op_strategy(), 0..80));
-        let res = pt::run(run.seed, 0xC15_415, cases, &strat, |(start, ops)| {
-            if !frozen.get() {
-                cnt.set(cnt.get() + 1);
-                let mut h = mix(start);
-                let mut seen_fold = false;
-                let mut peel_after_fold = false;
-                for o in &ops {
-                    h = mix(h ^ match o {
-                        Op::FoldIn(x) => {
-                            seen_fold = true;
-                            *x ^ 1
+        let st = engine::RStats::new();
+        let cases = if thorough { 8_000_000 } else { 800_000 };
+        let make = || (set_strategy(), proptest::collection::vec(op_strategy(), 0..80));
+        let res = pt::run_sharded(run.seed, 0xC15_415, cases, &make, &|(start, ops): (u64, Vec<Op>)| {
+            let mut h = mix(start);
+            let mut seen_fold = false;
+            let mut peel_after_fold = false;
+            for o in &ops {
+                h = mix(h ^ match o {
+                    Op::FoldIn(x) => {
+                        seen_fold = true;
+                        *x ^ 1
+                    }
+                    Op::Peel => {
+                        if seen_fold {
+                            peel_after_fold = true;
                         }
-                        Op::Peel => {
-                            if seen_fold {
-                                peel_after_fold = true;
-                            }
-                            2
-                        }
-                        Op::Has(x) => x.rotate_left(7) ^ 3,
-                        Op::Count => 4,
-                        Op::IsValid => 5,
-                        Op::IsSingle => 6,
-                    });
-                }
-                if distinct.borrow_mut().insert(h) && peel_after_fold {
-                    nt.set(nt.get() + 1);
-                }
+                        2
+                    }
+                    Op::Has(x) => x.rotate_left(7) ^ 3,
+                    Op::Count => 4,
+                    Op::IsValid => 5,
+                    Op::IsSingle => 6,
+                });
             }
+            st.note(h, peel_after_fold, Some(if peel_after_fold { "history with a peel after a fold_in" } else { "other history" }), || json!({"set": format!("{:#x}", start), "ops": ops_json(&ops)}));
             let r = history_clause(start, &ops).and_then(|_| peel_all_clause(start));
             r.map_err(|e| {
-                frozen.set(true);
+                st.freeze();
                 e
             })
         });
-        run.generator("proptest histories of set operations + peel to exhaustion", "proptest (stateful, model-based)", None, cnt.get(), nt.get(), "start set + up to 80 operations against a u64 model, compared after every step; non-trivial = a peel after a fold_in");
+        st.flush(run, "proptest histories of set operations + peel to exhaustion", "proptest (stateful, model-based; 8 shards)", None, "start set + up to 80 operations against a u64 model, compared after every step; non-trivial = a peel after a fold_in");
         if let Err(f) = res {
             let (start, ops) = f.value;
             let (clause, m) = match history_clause(start, &ops) {
@@ -530,29 +510,26 @@ pub fn run_c16(run: &mut Run) -> PResult {
     run.class("two bits, at least one above the card bits (InvalidBinaryFormat)", over2);
     run.sample(json!({"set": "0x8000000000001", "result": "A♠ 2♣"}));
     run.sample(json!({"set": "0x10000000000001", "result": "InvalidBinaryFormat"}));
-    let cases = if run.tier == Tier::Thorough { 2_000_000 } else { 200_000 };
-    let cnt = Cell::new(0u64);
-    let distinct = RefCell::new(engine::Distinct::new());
-    let pcs = RefCell::new([0u64; 4]);
-    let strat = prop_oneof![
-        6 => (proptest::collection::vec(0u32..64, 0..=4)).prop_map(|v| v.iter().fold(0u64, |m, b| m | (1u64 << b))),
-        3 => (0u32..52, 0u32..52).prop_map(|(a, b)| (1u64 << a) | (1u64 << b)),
-        2 => (0u32..64, 52u32..64).prop_map(|(a, b)| (1u64 << a) | (1u64 << b)),
-        2 => set_strategy(),
-        1 => any::<u64>(),
-    ];
-    let res = pt::run(run.seed, 0xC16, cases, &strat, |x| {
-        if cnt.get() < cases as u64 {
-            cnt.set(cnt.get() + 1);
-            distinct.borrow_mut().insert(x);
-            pcs.borrow_mut()[(x.count_ones() as usize).min(3)] += 1;
-        }
-        two_clause(x)
+    let cases = if run.tier == Tier::Thorough { 16_000_000 } else { 2_000_000 };
+    let st = engine::RStats::new();
+    let make = || {
+        prop_oneof![
+            6 => (proptest::collection::vec(0u32..64, 0..=4)).prop_map(|v| v.iter().fold(0u64, |m, b| m | (1u64 << b))),
+            3 => (0u32..52, 0u32..52).prop_map(|(a, b)| (1u64 << a) | (1u64 << b)),
+            2 => (0u32..64, 52u32..64).prop_map(|(a, b)| (1u64 << a) | (1u64 << b)),
+            2 => set_strategy(),
+            1 => any::<u64>(),
+        ]
+    };
+    let res = pt::run_sharded(run.seed, 0xC16, cases, &make, &|x: u64| {
+        let pc = x.count_ones();
+        st.note(x, true, Some(&format!("random values with population count {}{}", pc.min(3), if pc >= 3 { "+" } else { "" })), || json!({"set": format!("{:#x}", x)}));
+        two_clause(x).map_err(|e| {
+            st.freeze();
+            e
+        })
     });
-    run.generator("proptest 64-bit values", "proptest", None, cnt.get(), distinct.borrow().len(), "few-bit values (population counts 0..4), card pairs, pairs touching overflow bits, structured and raw sets");
-    for (i, c) in pcs.borrow().iter().enumerate() {
-        run.class(&format!("random values with population count {}{}", i, if i == 3 { "+" } else { "" }), *c);
-    }
+    st.flush(run, "proptest 64-bit values", "proptest (8 shards)", None, "few-bit values (population counts 0..4), card pairs, pairs touching overflow bits, structured and raw sets");
     if let Err(f) = res {
         let m = two_clause(f.value).err().unwrap_or_default();
         return run.violation("C16.try_from", &format!("{:#x}", f.value), json!({"set": format!("{:#x}", f.value)}), &m);
